@@ -389,7 +389,13 @@ func abmfRules(c *Ctx, r *Report, R1, R2, R3, R4, R5, R6 string) {
 				if bo.Op == token.NEQ {
 					nonNil = ifi.Block().Succs[0]
 				}
-				if edgeDominates(ifi.Block(), nonNil, m.putOne.Block()) {
+				isNil := ifi.Block().Succs[0]
+				if nonNil == isNil {
+					isNil = ifi.Block().Succs[1]
+				}
+				// the write-back is not reachable from the not-found edge (a flag assigned on that
+				// edge and tested behind a merge is followed: one-step threading)
+				if edgeDominates(ifi.Block(), nonNil, m.putOne.Block()) || !threadedReach(ifi.Block(), isNil)[m.putOne.Block()] {
 					ok = true
 				}
 			}
